@@ -186,8 +186,11 @@ pub fn parse_line(line: &str, def_bank: u8, def_vol: i32) -> Option<Line> {
     Some(Line { time, beat_len: bl, sig, bank, custom, vol, tc, kiai, omit })
 }
 
-/// The legacy model over a line history. `mode`: 0 osu, 1 taiko, 2 catch, 3 mania.
+/// The legacy model over a line history. `mode`: 0 osu, 1 taiko, 2 catch, 3 mania. A pseudo-line `!mode N` stands for a
+/// `[General] Mode: N` record arriving between timing-point lines (sections may repeat): the mode that counts for a
+/// line is the one known when that line arrives.
 pub fn model(lines: &[String], mode: i64, def_bank: u8, def_vol: i32) -> (MC, Vec<bool>) {
+    let mut mode = mode;
     let mut c = MC::default();
     let (mut pt, mut pd, mut pe, mut ps): (Option<MT>, Option<MD>, Option<ME>, Option<MS>) = (None, None, None, None);
     let mut ptime = 0.0f64;
@@ -207,6 +210,13 @@ pub fn model(lines: &[String], mode: i64, def_bank: u8, def_vol: i32) -> (MC, Ve
         }
     }
     for l in lines {
+        if let Some(m) = l.strip_prefix("!mode ") {
+            if let Ok(m) = m.trim().parse::<i64>() {
+                mode = m;
+            }
+            accepted.push(false);
+            continue;
+        }
         let Some(x) = parse_line(l, def_bank, def_vol) else {
             accepted.push(false);
             continue;
